@@ -137,25 +137,30 @@ Definition is_udp (port : N) (o : sock) : bool := match o with SUdp q => q =? po
 Definition is_listener (port : N) (o : sock) : bool := match o with SListener q => q =? port | _ => false end.
 Definition is_half (p : pair) (o : sock) : bool :=
   match o with SRead q _ _ | SWrite q _ => pair_eqb q p | _ => false end.
+Definition is_guard (p : pair) (o : sock) : bool :=
+  match o with SConnGuard q => pair_eqb q p | _ => false end.
 
 (* every table entry of the host is owned by live socket objects of its tasks:
    one UdpSocket per UDP bind, one TcpListener per TCP bind, as many halves as
-   the reference count of each stream entry (halves of streams that were reset
-   by the peer own nothing), every multicast membership belongs to a live
+   the reference count of each stream entry — or the ConnectGuard of a connect
+   still in its handshake, which stands for both (halves of streams that were
+   reset by the peer own nothing), every multicast membership belongs to a live
    UdpSocket *)
 Record owns (t : tables) (objs : list sock) : Prop := {
   own_udp : forall port, cnt (N.eqb port) (udp t) = cnt (is_udp port) objs;
   own_tcp : forall port, cnt (fun b => fst b =? port) (tcp t) = cnt (is_listener port) objs;
   own_tcp_uniq : forall port, (cnt (fun b => (fst b =? port)%N) (tcp t) <= 1)%nat;
   own_str : forall p n, lookup_stream p (streams t) = Some n ->
-              n = cnt (is_half p) objs /\ (1 <= n)%nat;
+              n = (cnt (is_half p) objs + 2 * cnt (is_guard p) objs)%nat /\ (1 <= n)%nat;
+  own_guard : forall p, (1 <= cnt (is_guard p) objs)%nat -> cnt (is_half p) objs = 0%nat;
   own_str_uniq : forall p, (cnt (fun e => pair_eqb (fst e) p) (streams t) <= 1)%nat;
   own_mc : forall g port, In (g, self t, port) (mcast t) -> (1 <= cnt (is_udp port) objs)%nat
 }.
 
 Lemma owns_perm t l l' : Permutation l l' -> owns t l -> owns t l'.
 Proof.
-  intros P [A B C D E F]. constructor; intros; rewrite <- ?(cnt_perm _ _ _ P); eauto.
+  intros P [A B C D G E F]. constructor; intros; rewrite <- ?(cnt_perm _ _ _ P); eauto.
+  apply G. now rewrite (cnt_perm _ _ _ P).
 Qed.
 
 Lemma cnt_zero_nil {A} (l : list A) (key : A -> N) :
@@ -169,7 +174,7 @@ Theorem owns_nil_empty t : owns t [] ->
   udp t = [] /\ tcp t = [] /\ streams t = [] /\
   (forall g h port, In (g, h, port) (mcast t) -> h <> self t).
 Proof.
-  intros [A B C D E F]. repeat split.
+  intros [A B C D G E F]. repeat split.
   - apply (cnt_zero_nil (udp t) (fun x => x)). intro k.
     transitivity (cnt (N.eqb k) (udp t)); [|rewrite (A k); reflexivity].
     unfold cnt. f_equal. apply filter_ext. intro x. apply N.eqb_sym.
@@ -267,16 +272,22 @@ Qed.
 
 (* --- one destructor keeps the ownership relation for the remaining objects --- *)
 
+Ltac guard_rest G :=
+  let q := fresh "q" in let Hg := fresh "Hg" in
+  intros q Hg; specialize (G q); rewrite !cnt_cons in G; cbn [is_guard is_half] in G;
+  repeat match type of G with context [pair_eqb ?a ?b] => destruct (pair_eqb a b) end; lia.
+
 Lemma owns_drop t o rest : owns t (o :: rest) -> owns (fst (drop_sock t o)) rest.
 Proof.
-  intros [A B C D E F]. destruct o as [q|q|p unread closed|p shut]; cbn [drop_sock].
+  intros [A B C D G E F]. destruct o as [q|q|p unread closed|p shut|p]; cbn [drop_sock].
   - (* UdpSocket *)
     cbn [fst]. constructor; cbn [udp tcp streams mcast self set_udp set_mcast].
     + intro port. rewrite cnt_remove_port. specialize (A port). rewrite cnt_cons in A. cbn [is_udp] in A.
       destruct (q =? port); lia.
     + intro port. specialize (B port). now rewrite cnt_cons in B.
     + exact C.
-    + intros p n H. specialize (D p n H). now rewrite cnt_cons in D.
+    + intros p n H. specialize (D p n H). now rewrite !cnt_cons in D.
+    + guard_rest G.
     + exact E.
     + intros g port Hin. apply filter_In in Hin as [Hin Hf]. cbn in Hf.
       rewrite N.eqb_refl in Hf. cbn in Hf. apply negb_true_iff in Hf.
@@ -291,7 +302,8 @@ Proof.
       destruct (q =? port); lia.
     + intro port. pose proof (cnt_remove_bind q (tcp t) port) as K. rewrite Er in K. cbn [fst] in K.
       rewrite K. specialize (C port). destruct (q =? port); lia.
-    + intros p n H. specialize (D p n H). now rewrite cnt_cons in D.
+    + intros p n H. specialize (D p n H). now rewrite !cnt_cons in D.
+    + guard_rest G.
     + exact E.
     + intros g port Hin. specialize (F g port Hin). now rewrite cnt_cons in F.
   - (* ReadHalf *)
@@ -302,7 +314,8 @@ Proof.
     + exact C.
     + intros q n H. rewrite lookup_remove_stream in H by apply E.
       destruct (pair_eqb p q) eqn:Epq; [discriminate|].
-      specialize (D q n H). rewrite cnt_cons in D. cbn [is_half] in D. now rewrite Epq in D.
+      specialize (D q n H). rewrite !cnt_cons in D. cbn [is_half is_guard] in D. now rewrite Epq in D.
+    + guard_rest G.
     + intro q. pose proof (cnt_remove_stream_le p (streams t) q). specialize (E q). lia.
     + intros g port Hin. specialize (F g port Hin). now rewrite cnt_cons in F.
     + intro port. specialize (A port). now rewrite cnt_cons in A.
@@ -313,8 +326,9 @@ Proof.
       * apply pair_eqb_eq in Epq. subst q.
         destruct (lookup_stream p (streams t)) as [[|[|m]]|] eqn:El; try discriminate.
         inversion H; subst n. destruct (D p (S (S m)) El) as [D1 D2].
-        rewrite cnt_cons in D1. cbn [is_half] in D1. rewrite pair_eqb_refl in D1. lia.
-      * specialize (D q n H). rewrite cnt_cons in D. cbn [is_half] in D. now rewrite Epq in D.
+        rewrite !cnt_cons in D1. cbn [is_half is_guard] in D1. rewrite pair_eqb_refl in D1. lia.
+      * specialize (D q n H). rewrite !cnt_cons in D. cbn [is_half is_guard] in D. now rewrite Epq in D.
+    + guard_rest G.
     + intro q. pose proof (cnt_close_half_le p (streams t) q). specialize (E q). lia.
     + intros g port Hin. specialize (F g port Hin). now rewrite cnt_cons in F.
   - (* WriteHalf *)
@@ -327,15 +341,27 @@ Proof.
       * apply pair_eqb_eq in Epq. subst q.
         destruct (lookup_stream p (streams t)) as [[|[|m]]|] eqn:El; try discriminate.
         inversion H; subst n. destruct (D p (S (S m)) El) as [D1 D2].
-        rewrite cnt_cons in D1. cbn [is_half] in D1. rewrite pair_eqb_refl in D1. lia.
-      * specialize (D q n H). rewrite cnt_cons in D. cbn [is_half] in D. now rewrite Epq in D.
+        rewrite !cnt_cons in D1. cbn [is_half is_guard] in D1. rewrite pair_eqb_refl in D1. lia.
+      * specialize (D q n H). rewrite !cnt_cons in D. cbn [is_half is_guard] in D. now rewrite Epq in D.
+    + guard_rest G.
     + intro q. pose proof (cnt_close_half_le p (streams t) q). specialize (E q). lia.
+    + intros g port Hin. specialize (F g port Hin). now rewrite cnt_cons in F.
+  - (* ConnectGuard *)
+    cbn [fst]. constructor; cbn [udp tcp streams mcast self set_streams].
+    + intro port. specialize (A port). now rewrite cnt_cons in A.
+    + intro port. specialize (B port). now rewrite cnt_cons in B.
+    + exact C.
+    + intros q n H. rewrite lookup_remove_stream in H by apply E.
+      destruct (pair_eqb p q) eqn:Epq; [discriminate|].
+      specialize (D q n H). rewrite !cnt_cons in D. cbn [is_half is_guard] in D. now rewrite Epq in D.
+    + guard_rest G.
+    + intro q. pose proof (cnt_remove_stream_le p (streams t) q). specialize (E q). lia.
     + intros g port Hin. specialize (F g port Hin). now rewrite cnt_cons in F.
 Qed.
 
 Lemma drop_sock_self t o : self (fst (drop_sock t o)) = self t.
 Proof.
-  destruct o as [q|q|p u c|p s]; cbn; auto.
+  destruct o as [q|q|p u c|p s|p]; cbn; auto.
   - destruct (remove_bind q (tcp t)); reflexivity.
   - destruct (negb c && u); reflexivity.
 Qed.
@@ -344,7 +370,7 @@ Qed.
 Lemma drop_sock_mcast_others t o g h port :
   h <> self t -> (In (g, h, port) (mcast (fst (drop_sock t o))) <-> In (g, h, port) (mcast t)).
 Proof.
-  intro Hh. destruct o as [q|q|p u c|p s]; cbn; try tauto.
+  intro Hh. destruct o as [q|q|p u c|p s|p]; cbn; try tauto.
   - rewrite filter_In. cbn. apply N.eqb_neq in Hh. rewrite Hh. cbn. tauto.
   - destruct (remove_bind q (tcp t)); cbn; tauto.
   - destruct (negb c && u); cbn; tauto.
@@ -414,7 +440,8 @@ Proof.
     destruct (drop_all t1 rest) as [t2 m2] eqn:Ea. cbn [snd]. apply in_or_app.
     assert (Keep : tcp t1 = tcp t -> In (MAckDropped (syn_ack s)) m2).
     { intro Et. specialize (IH t1 port syns s H1). rewrite Ea in IH. apply IH; auto. now rewrite Et. }
-    destruct o as [q|q|p u c|p sh]; cbn [drop_sock] in Ed.
+    destruct o as [q|q|p u c|p sh|p]; cbn [drop_sock] in Ed;
+      [| | | |inversion Ed; subst; right; apply Keep; reflexivity].
     + inversion Ed; subst. right. apply Keep. reflexivity.
     + destruct (remove_bind q (tcp t)) as [b sy] eqn:Er. inversion Ed; subst.
       destruct (N.eq_dec port q) as [->|Hne].
@@ -444,14 +471,26 @@ Proof.
   assert (Two : forall u c, o = SRead p u c \/ (exists sh, o = SWrite p sh) -> In (SWrite p false) rest ->
                 exists m, lookup_stream p (streams t) = Some (S (S m))).
   { intros u c Ho Hr. destruct (lookup_stream p (streams t)) as [n|] eqn:El; [|congruence].
-    destruct (own_str _ _ H p n El) as [N1 N2]. rewrite cnt_cons in N1.
+    destruct (own_str _ _ H p n El) as [N1 N2]. rewrite !cnt_cons in N1.
     assert (Hh : is_half p o = true) by (destruct Ho as [->|[sh ->]]; cbn; apply pair_eqb_refl).
     rewrite Hh in N1.
     assert (1 <= cnt (is_half p) rest)%nat.
     { clear -Hr. induction rest as [|x l IHl]; [destruct Hr|]. rewrite cnt_cons.
       destruct Hr as [->|Hr]; [cbn; rewrite pair_eqb_refl; lia|]. specialize (IHl Hr). lia. }
     destruct n as [|[|m]]; try lia. eauto. }
-  destruct o as [q|q|q u c|q sh]; cbn [drop_sock] in Ed.
+  destruct o as [q|q|q u c|q sh|q]; cbn [drop_sock] in Ed.
+  5:{ (* a ConnectGuard: never for a pair that has halves *)
+    destruct Hin as [Hin|Hin]; [discriminate|].
+    destruct (pair_eqb q p) eqn:Eqp.
+    - exfalso. apply pair_eqb_eq in Eqp. subst q.
+      pose proof (own_guard _ _ H p) as G. rewrite !cnt_cons in G. cbn [is_guard is_half] in G.
+      rewrite pair_eqb_refl in G.
+      assert (1 <= cnt (is_half p) rest)%nat.
+      { clear -Hin. induction rest as [|x l IHl]; [destruct Hin|]. rewrite cnt_cons.
+        destruct Hin as [->|Hin]; [cbn; rewrite pair_eqb_refl; lia|]. specialize (IHl Hin). lia. }
+      lia.
+    - inversion Ed; subst. apply Later; auto. cbn [streams set_streams].
+      rewrite lookup_remove_stream by apply (own_str_uniq _ _ H). now rewrite Eqp. }
   - inversion Ed; subst. destruct Hin as [Hin|Hin]; [discriminate|]. apply Later; auto.
   - destruct (remove_bind q (tcp t)) as [b sy]. inversion Ed; subst.
     destruct Hin as [Hin|Hin]; [discriminate|]. apply Later; auto.
@@ -515,17 +554,25 @@ Definition empty_tables (h : N) : tables := {| self := h; udp := []; tcp := []; 
 Lemma owns_empty h : owns (empty_tables h) [].
 Proof. constructor; cbn; intros; auto; try discriminate; try contradiction. Qed.
 
+Ltac guard_cons G :=
+  let q := fresh "q" in let Hg := fresh "Hg" in
+  intros q Hg; rewrite !cnt_cons in *; cbn [is_guard is_half] in *;
+  specialize (G q);
+  repeat match goal with |- context [pair_eqb ?a ?b] => destruct (pair_eqb a b) eqn:? end;
+  try lia.
+
 (* UdpSocket::bind on a free port *)
 Lemma owns_udp_bind t objs port :
   owns t objs -> cnt (N.eqb port) (udp t) = 0%nat ->
   owns (set_udp t (udp t ++ [port])) (SUdp port :: objs).
 Proof.
-  intros [A B C D E F] Hfree. constructor; cbn [udp tcp streams mcast self set_udp].
+  intros [A B C D G E F] Hfree. constructor; cbn [udp tcp streams mcast self set_udp].
   - intro q. rewrite cnt_app, (A q), !cnt_cons. cbn [cnt filter length is_udp].
     rewrite (N.eqb_sym q port). destruct (port =? q); lia.
   - intro q. rewrite cnt_cons. cbn. apply B.
   - exact C.
-  - intros p n H. rewrite cnt_cons. cbn. now apply D.
+  - intros p n H. rewrite !cnt_cons. cbn. now apply D.
+  - guard_cons G.
   - exact E.
   - intros g q Hin. rewrite cnt_cons. specialize (F g q Hin). lia.
 Qed.
@@ -535,13 +582,14 @@ Lemma owns_tcp_bind t objs port :
   owns t objs -> cnt (fun b => fst b =? port) (tcp t) = 0%nat ->
   owns (set_tcp t (tcp t ++ [(port, [])])) (SListener port :: objs).
 Proof.
-  intros [A B C D E F] Hfree. constructor; cbn [udp tcp streams mcast self set_tcp].
+  intros [A B C D G E F] Hfree. constructor; cbn [udp tcp streams mcast self set_tcp].
   - intro q. rewrite cnt_cons. cbn. apply A.
   - intro q. rewrite cnt_app, (B q), !cnt_cons. cbn [cnt filter length fst is_listener].
     destruct (port =? q); lia.
   - intro q. rewrite cnt_app, cnt_cons. cbn [cnt filter length fst]. specialize (C q).
     destruct (port =? q) eqn:Epq; [|lia]. apply N.eqb_eq in Epq. subst q. lia.
-  - intros p n H. rewrite cnt_cons. cbn. now apply D.
+  - intros p n H. rewrite !cnt_cons. cbn. now apply D.
+  - guard_cons G.
   - exact E.
   - intros g q Hin. rewrite cnt_cons. specialize (F g q Hin). cbn. lia.
 Qed.
@@ -561,24 +609,54 @@ Qed.
 Lemma owns_syn_queued t objs port s :
   owns t objs -> owns (set_tcp t (push_syn port s (tcp t))) objs.
 Proof.
-  intros [A B C D E F]. constructor; cbn [udp tcp streams mcast self set_tcp]; auto;
+  intros [A B C D G E F]. constructor; cbn [udp tcp streams mcast self set_tcp]; auto;
     intro q; rewrite cnt_push_syn; auto.
 Qed.
 
-(* connect / accept: Tcp::new_stream registers the pair with ref_ct 2 and the
-   TcpStream (two halves) goes to the task *)
-Lemma owns_new_stream t objs p :
-  owns t objs -> lookup_stream p (streams t) = None -> cnt (is_half p) objs = 0%nat ->
-  owns (set_streams t ((p, 2%nat) :: streams t)) (SRead p false false :: SWrite p false :: objs).
+(* TcpStream::connect registers the pair (ref_ct 2) before the handshake; until
+   the SYN-ACK arrives the entry belongs to the ConnectGuard of the future *)
+Lemma owns_connect_start t objs p :
+  owns t objs -> lookup_stream p (streams t) = None ->
+  cnt (is_half p) objs = 0%nat -> cnt (is_guard p) objs = 0%nat ->
+  owns (set_streams t ((p, 2%nat) :: streams t)) (SConnGuard p :: objs).
 Proof.
-  intros [A B C D E F] Hnone Hz. constructor; cbn [udp tcp streams mcast self set_streams].
+  intros [A B C D G E F] Hnone Hz Hg0. constructor; cbn [udp tcp streams mcast self set_streams].
   - intro q. rewrite !cnt_cons. cbn. apply A.
   - intro q. rewrite !cnt_cons. cbn. apply B.
   - exact C.
-  - intros q n H. cbn [lookup_stream] in H. rewrite !cnt_cons. cbn [is_half].
+  - intros q n H. cbn [lookup_stream] in H. rewrite !cnt_cons. cbn [is_half is_guard].
     destruct (pair_eqb p q) eqn:Epq.
     + inversion H; subst n. apply pair_eqb_eq in Epq. subst q. lia.
     + destruct (D q n H). lia.
+  - intros q Hq. rewrite !cnt_cons in *. cbn [is_half is_guard] in *.
+    destruct (pair_eqb p q) eqn:Epq.
+    + apply pair_eqb_eq in Epq. subst q. lia.
+    + apply G. lia.
+  - intro q. rewrite cnt_cons. cbn [fst]. specialize (E q).
+    destruct (pair_eqb p q) eqn:Epq; [|lia]. apply pair_eqb_eq in Epq. subst q.
+    apply lookup_cnt in Hnone. lia.
+  - intros g q Hin. rewrite !cnt_cons. specialize (F g q Hin). cbn. lia.
+Qed.
+
+(* accept (or a completed connect): the pair is registered with ref_ct 2 and the
+   TcpStream (two halves) goes to the task *)
+Lemma owns_new_stream t objs p :
+  owns t objs -> lookup_stream p (streams t) = None ->
+  cnt (is_half p) objs = 0%nat -> cnt (is_guard p) objs = 0%nat ->
+  owns (set_streams t ((p, 2%nat) :: streams t)) (SRead p false false :: SWrite p false :: objs).
+Proof.
+  intros [A B C D G E F] Hnone Hz Hg0. constructor; cbn [udp tcp streams mcast self set_streams].
+  - intro q. rewrite !cnt_cons. cbn. apply A.
+  - intro q. rewrite !cnt_cons. cbn. apply B.
+  - exact C.
+  - intros q n H. cbn [lookup_stream] in H. rewrite !cnt_cons. cbn [is_half is_guard].
+    destruct (pair_eqb p q) eqn:Epq.
+    + inversion H; subst n. apply pair_eqb_eq in Epq. subst q. lia.
+    + destruct (D q n H). lia.
+  - intros q Hq. rewrite !cnt_cons in *. cbn [is_half is_guard] in *.
+    destruct (pair_eqb p q) eqn:Epq.
+    + apply pair_eqb_eq in Epq. subst q. lia.
+    + apply G. lia.
   - intro q. rewrite cnt_cons. cbn [fst]. specialize (E q).
     destruct (pair_eqb p q) eqn:Epq; [|lia]. apply pair_eqb_eq in Epq. subst q.
     apply lookup_cnt in Hnone. lia.
@@ -589,7 +667,7 @@ Qed.
 Lemma owns_rst_received t objs p :
   owns t objs -> owns (set_streams t (remove_stream p (streams t))) objs.
 Proof.
-  intros [A B C D E F]. constructor; cbn [udp tcp streams mcast self set_streams]; auto.
+  intros [A B C D G E F]. constructor; cbn [udp tcp streams mcast self set_streams]; auto.
   - intros q n H. rewrite lookup_remove_stream in H by apply E.
     destruct (pair_eqb p q); [discriminate|]. now apply D.
   - intro q. pose proof (cnt_remove_stream_le p (streams t) q). specialize (E q). lia.
@@ -600,6 +678,6 @@ Lemma owns_join t objs g port :
   owns t objs -> (1 <= cnt (is_udp port) objs)%nat ->
   owns (set_mcast t ((g, self t, port) :: mcast t)) objs.
 Proof.
-  intros [A B C D E F] Hs. constructor; cbn [udp tcp streams mcast self set_mcast]; auto.
+  intros [A B C D G E F] Hs. constructor; cbn [udp tcp streams mcast self set_mcast]; auto.
   intros g' q [Hin|Hin]; [inversion Hin; subst; exact Hs|eauto].
 Qed.
